@@ -263,7 +263,7 @@ class Ref:
         for i, r in enumerate(recs):
             lbp, rbp = 2 * (n - i), 2 * (n - i) + 1
             if r[0] == 'leftright':
-                op = textbook.operator_of(r[1])
+                op = textbook.assoc_operator_of(r[1])
                 ftoks = self.g.first[('n', op['id'])] if op is not None else set()
                 if ftoks and all(t in right for t in ftoks):
                     lbp, rbp = rbp, lbp
